@@ -1285,7 +1285,7 @@ def OP_LOOP(tape: Tape, stack: Stack, cache: dict) -> None:
         sert(count < tape.callstack_limit, 'OP_LOOP limit exceeded')
         run_tape(subtape, stack, cache, additional_flags=tape.flags)
         if 'returned' in cache:
-            return
+            return OP_RETURN(tape, stack, cache)
         subtape.reset_pointer()
         count += 1
         condition = stack.peek()
